@@ -3,7 +3,7 @@
 From Coq Require Import ZArith List Bool Lia Permutation QArith Qcanon.
 Require Export MV.Lib.Base MV.C13.Defs MV.C13.Geom MV.C13.Gen MV.C13.Model MV.C13.Run.
 Require Export MV.C13.Proofs_Base MV.C13.Proofs_Counts MV.C13.Proofs_Topo MV.C13.Proofs_Geom
-               MV.C13.Proofs_Accept MV.C13.Proofs_Accept2 MV.C13.Proofs_Vol MV.C13.Proofs_Arg MV.C13.Proofs_Manifold.
+               MV.C13.Proofs_Accept MV.C13.Proofs_Accept2 MV.C13.Proofs_Vol MV.C13.Proofs_Arg MV.C13.Proofs_Manifold MV.C13.Proofs_Manifold2 MV.C13.Proofs_Euler.
 Import ListNotations.
 Open Scope Z_scope.
 
@@ -34,6 +34,9 @@ Proof. intros H. apply q3_core_counts in H as [H1 [H2 H3]]. unfold chi2. lia. Qe
 (* loop: V' = V + E and F' = 4F, so the Euler characteristic is preserved exactly when E' = 2E + 3F *)
 Lemma euler_loop r r' : loop_step O r = Ok r' -> (chi2 r' = chi2 r <-> nE r' = 2 * nE r + 3 * nF r).
 Proof. intros H. apply loop_step_counts in H as [H1 H2]. unfold chi2. lia. Qed.
+Lemma euler_loop_full r r' :
+  loop_step O r = Ok r' -> WF r -> oriented_tri (nV r) (rf r) -> simple_tri (rf r) -> exact_edges r -> chi2 r' = chi2 r.
+Proof. intros H HW Ho Hs He. apply (proj2 (euler_loop r r' H)). now apply (loop_step_edge_count O r r' H HW Ho Hs He). Qed.
 End Euler.
 
 (* ------------------------------------------------------------------ non-vacuity: concrete objects meet the hypotheses *)
@@ -98,12 +101,30 @@ Proof.
   repeat (destruct H as [H|H]; [inversion H; subst; clear H; repeat (destruct H' as [H'|H']; [discriminate|]); contradiction|]).
   contradiction.
 Qed.
-Example ex_tet_covered : Forall (covered (re ex_tet)) (rf ex_tet).
+Example ex_tet_input_ok : input_ok (Zlen ex_tet_V) ex_tet_F.
 Proof.
-  assert (H : WF ex_tet).
-  { apply prepared_input_WF. change (Zlen ex_tet_V) with 4. unfold input_ok, ex_tet_F, face_ok, vert_ok, Zlen.
-    repeat (apply Forall_cons || apply Forall_nil);
-      (split; [split; [cbn; lia|repeat (apply Forall_cons || apply Forall_nil); lia]
-              |intros a b H; cbn in H; repeat (destruct H as [H|H]; [inversion H; subst; lia|]); contradiction]). }
-  apply H.
+  change (Zlen ex_tet_V) with 4. unfold input_ok, ex_tet_F, face_ok, vert_ok, Zlen.
+  repeat (apply Forall_cons || apply Forall_nil);
+    (split; [split; [cbn; lia|repeat (apply Forall_cons || apply Forall_nil); lia]
+            |intros a b H; cbn in H; repeat (destruct H as [H|H]; [inversion H; subst; lia|]); contradiction]).
 Qed.
+Example ex_tet_WF : WF ex_tet.
+Proof. apply prepared_input_WF, ex_tet_input_ok. Qed.
+Example ex_tet_covered : Forall (covered (re ex_tet)) (rf ex_tet).
+Proof. apply ex_tet_WF. Qed.
+Example ex_tet_exact : exact_edges ex_tet.
+Proof. apply prepared_input_exact, ex_tet_input_ok. Qed.
+(* loop_subdivision(2) of the tetrahedron boundary: 4 -> 64 faces, 6 -> 96 edges, 4 -> 34 vertices, chi = 2 *)
+Example ex_tet_loop2 : exists s', (sstep QcO (surf_enter ex_tet) (Loop 2) = Ok s') /\ nV (cur s') = 34 /\ nE (cur s') = 96 /\ nF (cur s') = 64.
+Proof. eexists. split; [vm_compute; reflexivity|]. repeat split; vm_compute; reflexivity. Qed.
+(* a polygonal surface for the in-place operations: the quad (0,1,2,3) with a triangle on its side 2-3; the cut 1-3 is free *)
+Example ex_square_oriented : oriented_poly (nV ex_square) (rf ex_square).
+Proof.
+  change (nV ex_square) with 5. change (rf ex_square) with ex_square_F. unfold ex_square_F. split.
+  - cbn. repeat (apply NoDup_cons || apply NoDup_nil); cbn; intuition congruence.
+  - repeat (apply Forall_cons || apply Forall_nil); (split; [unfold Zlen; cbn; lia|split]);
+      try (repeat (apply Forall_cons || apply Forall_nil); unfold vert_ok; lia);
+      repeat (apply NoDup_cons || apply NoDup_nil); cbn; intuition congruence.
+Qed.
+Example ex_square_cut_free : ~ In (1, 3) (dedges_all (rf ex_square)) /\ ~ In (3, 1) (dedges_all (rf ex_square)).
+Proof. change (rf ex_square) with ex_square_F. cbn. intuition congruence. Qed.
